@@ -66,6 +66,17 @@ CHECKS = {
           "stage workers (shape read from the source), the real workers run in C03's end-to-end scenarios. Termination of internal "
           "steps (that quiescence is always reached) is argued by a decreasing measure in DESIGN.md, not yet proved in Lean.",
  },
+ "C09": {
+  "text": "Byte-level theorems for all byte strings / pair lists: QueryUnescape(QueryEscape b) = b; parsing the re-encoded query "
+          "returns exactly the pair list (order and multiplicity kept); canonicalising twice = once; the guard sequence admits only "
+          "http/https with a dotted non-loopback host; a map-ordered encoder is provably not a function (D1). Facts: guard constants "
+          "and order, hash clearing, quote trimming, whether encodeQuery ranges over a map. Grammar-generated and mutated URLs x "
+          "parents go through the real NormalizeURL + String() seven times each (determinism), re-fed (idempotence), shape-checked by "
+          "an independent oracle; raw queries and random byte strings are compared with the model.",
+  "note": COMMON_NOTE + "Modelled not verified: URL parsing and reference resolution (ada WHATWG parser, net/url, idna) are oracles whose "
+          "outputs are only checked for shape/determinism/idempotence on the generated grammar; 'resolves as the URL standard prescribes' "
+          "is therefore validated by sampling, not proved.",
+ },
 }
 
 _todo = "check not built yet in this session (work in progress; see DESIGN.md §4 for the planned model and theorems)"
